@@ -33,6 +33,12 @@ CHECKS = {
  "C20": dict(engine=E3, technique="exhaustive enumeration of configuration documents derived from the published JSON Schemas and, independently, from the loaders' Go structs; loader vs schema agreement",
    text="Every key path of schemas/*.json and of the reflected loader structs instantiated with a type-correct value; every closed mapping node with one undeclared key injected (4 values, 2 positions, merge keys, alias spellings); every rule list with empty/null/no-action entries; each document goes through the real loaders and through santhosh-tekuri against the published schema (python jsonschema cross-check); verdicts must agree in both directions.",
    note="Only key-level acceptance is compared; free-form positions are not injected; entries setting two actions are not judged.", ref="§6 C20"),
+ "C01": dict(engine=E3, technique="exhaustive enumeration of grammar G x 3 input formats x document alphabets; real pipeline -> generated Go compiled and executed; reference validators (santhosh-tekuri, kin-openapi, cue) as oracle",
+   text="Every schema of grammar G for the tier (quick ~330, thorough ~700 abstract schemas) is rendered in each input format that can express it, generated by the real pipeline (json marshaller + strict unmarshaller), compiled with the Go toolchain and linked into one reflective driver; every document of the finite value alphabet that all applicable reference validators accept is decoded with both decoders, re-encoded, re-validated by the source format's validator and compared for JSON equality (exact numbers, key order free, optional explicit null may disappear). Only minimal failing schemas (no failing one-step reduction) are reported.",
+   note="Documents on which the reference validators disagree are excluded; packages that do not compile are counted as blocked_by=C02; values outside the alphabet (long strings, deep nesting > 3) are not covered.", ref="§6 C01"),
+ "C17": dict(engine=E1, technique="explicit-state BFS over sequences of veneer rules loaded through the YAML loader and applied by the real rewriter; well-typedness invariant in every state and per-rule contracts on every transition",
+   text="From the builder sets derived from 17 seed schemas, all rule sequences of length <=2 (thorough: full alphabet as second step + depth 3 reduced) over all 10 builder and 12 option rule kinds x selector forms (by object/name/builder/names, other-case, absent); every assignment path must name an existing chain of fields with matching types, every used argument must be declared, unselected builders/options must be canonically identical, and the Appendix A.4 contracts (omit/rename/duplicate/append/index/unfold/struct-fields/disjunction) must hold; duplicates must share no memory with their source.",
+   note="Rules returning an error are allowed outcomes; an option a structural rule leaves unchanged is accepted; compose gets the frame check and the invariant only.", ref="§6 C17, App. A.4"),
 }
 
 NOT_YET = "check not built yet in this session (planned, see DESIGN.md §6); not claimed until it runs clean on the unchanged tree"
